@@ -15,10 +15,32 @@ def srepr(x, n=2000):
         return repr(x)[:n]
     except ValueError:
         return "<value containing an int beyond the 4300-digit text limit>"
+    except RecursionError:
+        return "<a list nested 3000 levels deep: c04.deep_value()>"
+
+
+BRACKETED = ["[1 2]", "{a b}", "(1 2)", "[1,,2]", "{1: }", "{'a' 1}", "[1; 2]", "{1, 2:}", "[a b]", "(,)", "[1 2", "{\"a\" \"b\"}",
+             "[[1] [2]]", "{1 2}", "(1,, 2)", "[*]", "{**}", "[1 if]", "[lambda]", "{'a': 1 'b': 2}"]
+_DEEP = []
+
+
+def deep_value():
+    """a container nested far beyond the interpreter's recursion limit (built once)"""
+    if not _DEEP:
+        v = []
+        for _ in range(3000):
+            v = [v]
+        _DEEP.append(v)
+    return _DEEP[0]
 
 
 def hostile_value(rng, depth=2):
     k = rng.random()
+    if k < 0.05:
+        # text that opens and closes like a list / dict / tuple literal but is neither JSON nor a Python literal
+        return rng.choice(BRACKETED)
+    if k < 0.06 and depth == 2:
+        return deep_value()
     if k < 0.30:
         return rng.choice([float("inf"), float("-inf"), float("nan"), "inf", "-inf", "nan", "Infinity", "-Infinity", "NaN",
                            Decimal("Infinity"), Decimal("-Infinity"), Decimal("NaN"), Decimal("sNaN"), 10 ** 400, -10 ** 400, 10 ** 5000,
